@@ -142,11 +142,11 @@ def runObsV : World → St → List (Cfg × Glob × List Nat) → List RxObs
 
 /-- an accepted Discover produces exactly one transmit and it decodes as a Hello -/
 theorem accepted_one_hello (c : Cfg) (g : Glob) (w : World) (st : St) (img : List Nat) (hc : CfgOk c) (hd : isDiscover img = true)
-    (hacc : mapperMatches st (LLTD.fRealSrc img) = true) (hw : NoFault w) :
+    (hacc : mapperMatches st (LLTD.fRealSrc img) = true) (hw : NoMFault w) :
     (sends (obsOf c g img (parseFrameSt c g w st img).fx).fx).length = 1 ∧
     (helloReplies (obsOf c g img (parseFrameSt c g w st img).fx).fx).length = 1 := by
   obtain ⟨hl, htos, hop⟩ := (isDiscover_iff img).mp hd
-  have hm := malloc_nf w c.mtuEff hw
+  have hm := malloc_nmf w c.mtuEff hw
   have h1 : (LLTD.fRealSrc img).length = 6 := slice_length _ _ _ (by simp; omega)
   have h2 : (LLTD.fEthSrc img).length = 6 := slice_length _ _ _ (by simp; omega)
   have hfx := (answerHello_fx c g w (preStep st img) img hc hl hm).1
@@ -170,7 +170,7 @@ theorem refused_no_send (c : Cfg) (g : Glob) (w : World) (st : St) (img : List N
   simp [hrej, obsOf, sends]
 
 /-- one step of the predicate on the model's own reaction -/
-theorem step_holds (c : Cfg) (g : Glob) (w : World) (st : St) (img : List Nat) (s : SpecSt) (hc : CfgOk c) (hw : NoFault w)
+theorem step_holds (c : Cfg) (g : Glob) (w : World) (st : St) (img : List Nat) (s : SpecSt) (hc : CfgOk c) (hw : NoMFault w)
     (hr : Rel st s.mapper) : holdsC05Rx s (obsOf c g img (parseFrameSt c g w st img).fx) = true := by
   unfold holdsC05Rx
   have hfr : (obsOf c g img (parseFrameSt c g w st img).fx).frame = img := rfl
@@ -208,9 +208,10 @@ theorem step_holds (c : Cfg) (g : Glob) (w : World) (st : St) (img : List Nat) (
       rfl
     · simp only [hf]; rfl
 
-/-- THE HISTORY THEOREM -/
+/-- THE HISTORY THEOREM — for every frame history and every pattern of refused transmits (only allocations must succeed:
+    a Hello that cannot be built is not sent) -/
 theorem history (c : Cfg) (g : Glob) (own : List Nat) (hc : CfgOk c) (hm : c.failMtu = false) (imgs : List (List Nat))
-    (himgs : ∀ img ∈ imgs, ImgOk img) (w : World) (st : St) (s : SpecSt) (hw : NoFault w) (hr : Rel st s.mapper) :
+    (himgs : ∀ img ∈ imgs, ImgOk img) (w : World) (st : St) (s : SpecSt) (hw : NoMFault w) (hr : Rel st s.mapper) :
     (specStatesDom own 300 s (runObs c g w st imgs)).all (fun p => holdsC05Rx p.1 p.2) = true := by
   induction imgs generalizing w st s with
   | nil => rfl
@@ -219,15 +220,18 @@ theorem history (c : Cfg) (g : Glob) (own : List Nat) (hc : CfgOk c) (hm : c.fai
     simp only [runObs, specStatesDom, List.all_cons, Bool.and_eq_true]
     refine ⟨step_holds c g w st img s hc hw hr, ?_⟩
     apply ih (fun i hi => himgs i (by simp [hi]))
-    · exact nf_of_sched hw (parseFrameSt_sched c g w st img)
+    · exact nmf_of_sched hw (parseFrameSt_sched c g w st img)
     · have hfr : (obsOf c g img (parseFrameSt c g w st img).fx).frame = img := rfl
       rw [hfr, spec_mapper own 300 _ s img _ him.len]
       exact rel_step c g w st img s.mapper hc hm hr
 
 /-- from a freshly started responder: `holdsC05` of the whole trace -/
 theorem history_fresh (c : Cfg) (g : Glob) (hc : CfgOk c) (hm : c.failMtu = false) (imgs : List (List Nat))
-    (himgs : ∀ img ∈ imgs, ImgOk img) (w : World) (hw : NoFault w) :
+    (himgs : ∀ img ∈ imgs, ImgOk img) (w : World) (hw : NoMFault w) :
     holdsC05 c.mac (runObs c g w {} imgs) = true :=
   history c g c.mac hc hm imgs himgs w {} {} hw (rel_abs _ _ rfl)
+
+/-- non-vacuity: a platform that refuses EVERY transmit meets the hypothesis of `history` -/
+example : NoMFault { failSendAll := true, failSend := [1, 2, 3] } := ⟨rfl, rfl⟩
 
 end LLTD.C05
